@@ -104,6 +104,7 @@ var promHintFields = map[string]string{"Step": "shape", "Start": "shape", "End":
 // scanResult: what the scan found.  Nothing in here is fatal: an unclassified item is reported as a cap
 // (exhaustive=false + a line on stdout) and, where the harness can reach it generically, enumerated conservatively.
 type scanResult struct {
+	Recognisers   []string            // regex recognisers found in the planner packages ("pkg: syntax.OpLiteral", ...)
 	Unclassified  []string            // "service parameter T.M.p", "PlannerContext field F", "scan: cannot read ..."
 	NewMethods    map[string][]string // "Type.Method" -> parameter names, for exported service methods with no classified parameter at all
 	ParamsChecked int
@@ -181,6 +182,7 @@ func scanRequestSurface() *scanResult {
 	}
 	// 2. PlannerContext fields read by planners
 	fields := map[string]int{}
+	recognisers := map[string]bool{}
 	for _, dir := range []string{"reader/logql/logql_transpiler_v2/clickhouse_planner", "reader/traceql/transpiler", "reader/traceql/transpiler/clickhouse_transpiler",
 		"reader/prof/transpiler", "reader/promql/transpiler", "reader/tempo"} {
 		for _, path := range goFiles(dir) {
@@ -205,13 +207,42 @@ func scanRequestSurface() *scanResult {
 				}
 				return true
 			})
+			imports := map[string]bool{}
+			for _, im := range file.Imports {
+				imports[strings.Trim(im.Path.Value, `"`)] = true
+			}
+			pkg := filepath.Base(dir)
 			ast.Inspect(file, func(n ast.Node) bool {
-				se, ok := n.(*ast.SelectorExpr)
-				if !ok {
-					return true
-				}
-				if id, ok := se.X.(*ast.Ident); ok && pcNames[id.Name] && ast.IsExported(se.Sel.Name) {
-					fields[se.Sel.Name]++
+				switch x := n.(type) {
+				case *ast.SelectorExpr:
+					id, ok := x.X.(*ast.Ident)
+					if !ok {
+						return true
+					}
+					if pcNames[id.Name] && ast.IsExported(x.Sel.Name) {
+						fields[x.Sel.Name]++
+					}
+					// 3. regex recognisers: anything taken from regexp/syntax or regexp
+					if (id.Name == "syntax" && imports["regexp/syntax"]) || (id.Name == "regexp" && imports["regexp"]) {
+						recognisers[pkg+": "+id.Name+"."+x.Sel.Name] = true
+					}
+				case *ast.CallExpr:
+					// ... and string surgery on patterns: strings.HasPrefix(p, ".*") and friends
+					se, ok := x.Fun.(*ast.SelectorExpr)
+					if !ok {
+						return true
+					}
+					if id, ok := se.X.(*ast.Ident); !ok || id.Name != "strings" {
+						return true
+					}
+					switch se.Sel.Name {
+					case "HasPrefix", "HasSuffix", "TrimPrefix", "TrimSuffix", "Split", "SplitN", "Contains", "Index", "Cut":
+						for _, a := range x.Args {
+							if bl, ok := a.(*ast.BasicLit); ok && bl.Kind == token.STRING && regexish(bl.Value) {
+								recognisers[pkg+": strings."+se.Sel.Name+"("+bl.Value+")"] = true
+							}
+						}
+					}
 				}
 				return true
 			})
@@ -223,9 +254,38 @@ func scanRequestSurface() *scanResult {
 			res.Unclassified = append(res.Unclassified, "PlannerContext field "+f+" (read by a planner; no option of the harness varies it)")
 		}
 	}
+	for rc := range recognisers {
+		res.Recognisers = append(res.Recognisers, rc)
+		if !regexRecognisers[rc] {
+			res.Unclassified = append(res.Unclassified, "regex recogniser "+rc+" (a planner looks at the shape of a pattern in a way the template family of quote.go was not written against)")
+		}
+	}
+	sort.Strings(res.Recognisers)
 	sort.Strings(res.Fields)
 	sort.Strings(res.Unclassified)
 	return res
+}
+
+// regexish: a string constant that looks like a piece of regex syntax (".*", "^", "(?i)", "|", ...).
+func regexish(lit string) bool {
+	for _, m := range []string{".*", ".+", "^", "$", "(?", "|", "[", "\\"} {
+		if strings.Contains(lit, m) {
+			return true
+		}
+	}
+	return false
+}
+
+// regexRecognisers: how the planners of the tree look at the shape of a pattern today.  The template family
+// regexCtxs (quote.go) was written against these: a regex that parses to ONE literal (optionally case-folded) becomes
+// (i)like in LineFilterPlanner.  Templates for the shapes a recogniser could reasonably add (substring, prefix,
+// suffix, exact, groups, alternations, classes; payload raw and regex-quoted) are enumerated anyway; a recogniser
+// that is not listed here is reported as a cap so that somebody checks that a template exercises it.
+var regexRecognisers = map[string]bool{
+	"clickhouse_planner: syntax.Parse":     true,
+	"clickhouse_planner: syntax.PerlX":     true,
+	"clickhouse_planner: syntax.OpLiteral": true,
+	"clickhouse_planner: syntax.FoldCase":  true,
 }
 
 // ---- generic reach: exported service methods the tables do not know ------------------------------------------------
